@@ -201,12 +201,14 @@ def run_static(cell, rec, seed):
             if j is None:
                 okrun = False
                 break
+            # the observed block is named in an arbitrary order (values permuted accordingly)
+            perm = rng.permutation(Dy)
             cc = lc.call(rec, "condition_on",
-                         lambda: j.condition_on(JI(np.arange(Dw, Dw + Dy))), info)
+                         lambda: j.condition_on(JI(Dw + perm)), info)
             if cc is None:
                 okrun = False
                 break
-            p = cc.condition_on_x(J(ys[i][None]))
+            p = cc.condition_on_x(J(ys[i][perm][None]))
         if okrun:
             d = dict(info, route="joint")
             rec.close("joint-route posterior mean", p.mu, mu_ref[None], ns=ns_mu, detail=d,
